@@ -191,6 +191,21 @@ def conc_stage(ctx, exe, model, count):
                 gated=sum(1 for l in impl if "gated=1" in l))
 
 
+F9_WHAT = ("a speculative storage read of an account the database holds with balance only (no nonce, no code) "
+           "but with storage is cached in the shared state and survives the account's promotion to "
+           "'storage known' by the commit of a balance change: ParallelState then serves the database value "
+           "where revm's State driven by the committed history serves 0")
+
+
+def run_promo(exe):
+    """Finding F9, directed reproduction through the public API (harness: `cache promo`)."""
+    rc, out = core.sh([exe, "promo"], timeout=300)
+    lines = [l for l in out.splitlines() if l.startswith("PROMO")]
+    if rc not in (0, 10):
+        raise RuntimeError("cache promo failed (rc=%s): %s" % (rc, out[-2000:]))
+    return rc == 10, lines
+
+
 def run_f1(exe):
     rc, out = core.sh([exe, "f1", "3"], timeout=300)
     lines = [l for l in out.splitlines() if l.startswith("F1 ")]
@@ -268,6 +283,17 @@ def run(ctx):
         else:
             cases = [d["cases"][m["case"]] for m in d["model_diffs"][:3] if m.get("case", -1) >= 0]
             ctx.violation("theorem or correspondence no longer checks", dict(broken=broken, cases=cases, seed=ctx.seed), False)
+
+    f9_rep, f9_lines = run_promo(exe)
+    for l in f9_lines:
+        core.log(l)
+    known_f9 = any(k.get("id") == "F9" for k in ctx.known_findings())
+    if f9_rep:
+        if known_f9:
+            ctx.known_finding(F9_WHAT + "; " + " | ".join(f9_lines[:1]))
+        else:
+            ctx.violation(F9_WHAT, dict(witness=f9_lines, seed=ctx.seed, replay_cmd="target/release/cache promo",
+                                        how="database: A = {balance 1, nonce 0, no code, storage {3: 9}}; history: basic(A), commit(A.balance += 1), storage(A, 3); revm State and ParallelState answer 0; with storage_ref(A, 3) through the shared interface before the commit ParallelState answers 9 (Coq: C10_reads_change_answers_without_db_wf_refuted)"), True)
 
     if f1_rep:
         if known_f1 and not ctx.violations:
